@@ -350,7 +350,7 @@ def gen_case(rng, permit, n_steps):
 
 def generate(run, tier):
     rng = run.rng("gen")
-    n = 240 if tier == "quick" else 6000
+    n = 240 if tier == "quick" else 4000
     cases = []
     for _ in range(n):
         permit = rng.choices(["none", "F9", "F11"], [76, 12, 12])[0]
